@@ -191,6 +191,13 @@ def r61(ctx):
     for n in ast.walk(tree.cls(REPEX, "REPEX_state")):
         if isinstance(n, ast.Assign) and any(path_of(t) == "self.rgen.bit_generator.state" for t in n.targets):
             ck = _current_key(n.value)
+            if not ck and isinstance(n.value, ast.Name):
+                # the saved state may pass through a local:  saved_state = config["current"]["rng_state"]
+                for fn_ in [x for x in tree.cls(REPEX, "REPEX_state").body if isinstance(x, FUNC)]:
+                    if any(y is n for y in ast.walk(fn_)):
+                        fl_ = flow_of(fn_)
+                        v_, _ = deref(fl_, n.value, fl_.cfg.node_of(n))
+                        ck = _current_key(v_)
             if ck and ck[0] == "rng_state":
                 ok = True
                 ctx.ok(rid, n, "rng_state is read back into self.rgen.bit_generator.state")
